@@ -211,6 +211,26 @@ class StubsFft(StubsLib):
             # scipy.fft may destroy the contents of x: an in-place write to the caller's array
             ctx.note("stub:scipy.fft overwrite_x=True writes into its argument")
             self.frame_write_arr(x, "scipy.fft overwrite_x", ctx)
+        if f.name.endswith("n"):
+            # n-dimensional transforms: which axes a shape given WITHOUT axes applies to is where the dask wrapper
+            # and scipy differ (dask.array.fft.fft_wrap: the first len(s) axes; scipy.fft: the last len(s)); the
+            # arguments are made explicit so that the uninterpreted operator is keyed on what is really transformed
+            rest = list(args[1:])
+            s_ = kwargs.pop("s", rest.pop(0) if rest else None)
+            axes_ = kwargs.pop("axes", rest.pop(0) if rest else None)
+            if rest:
+                raise Unsupported("positional arguments of an n-dimensional FFT beyond (x, s, axes)")
+            if s_ is not None and any(is_sym(v) for v in s_) or axes_ is not None and any(is_sym(v) for v in axes_):
+                raise Unsupported("symbolic s/axes of an n-dimensional FFT")
+            if axes_ is None and s_ is not None:
+                axes_ = tuple(range(len(s_))) if f.wrapped else tuple(range(x.ndim - len(s_), x.ndim))
+                ctx.note("stub:fftn-family with s and no axes -- scipy: last len(s) axes; dask fft_wrap: first len(s) axes")
+            kw2 = dict(kwargs)
+            if s_ is not None:
+                kw2["s"] = tuple(int(v) for v in s_)
+            if axes_ is not None:
+                kw2["axes"] = tuple(int(v) % x.ndim for v in axes_)
+            return self.opaque_generic(ctx, f.name, x, (), kw2)
         if f.name not in ("fft", "ifft"):
             return self.opaque_generic(ctx, f.name, x, args[1:], kwargs)
         rest = list(args[1:])
